@@ -47,6 +47,7 @@ func strategyCfg() ExploreConfig {
 }
 
 func runC07(c *Ctx) {
+	defer checkClaimsWith(c, "C07.R12")
 	defer checkRegisteredClaimsWin(c, "C07.R11", "(*"+pkgJWT+".JWTClaims).ToMap", "exp")
 	defer checkSessionSetExpiresAt(c, "C07.R10")
 	defer checkConfigGetters(c, "C07.R9", "GetAccessTokenLifespan", "GetRefreshTokenLifespan", "GetAuthorizeCodeLifespan", "GetIDTokenLifespan", "GetDeviceAndUserCodeLifespan", "GetPushedAuthorizeContextLifespan", "GetJWTMaxDuration")
@@ -1091,6 +1092,15 @@ func c07StampBase(c *Ctx) {
 				if !(v.IsCall(".Add") && len(v.Args) == 2 && mentionsNow(v.Args[0]) && !v.Args[0].Mentions(func(s *Term) bool { return s.IsCall(".GetExpiresAt") })) {
 					ok, w = false, p
 					why = fmt.Sprintf("%s (%s) stamps %s: not the current time plus a lifespan", e.Name, c.P.Pos(e.Instr.Pos()), clip(e.Arg(1).Pretty(), 100))
+				} else if d := v.Args[1]; d.Op == "bin" && (d.Name == "*" || d.Name == "/") && len(d.Args) == 2 {
+					// the lifespan getters return a time.Duration: it is added as it is; scaling it by a unit
+					// constant again (expiresIn*time.Second) overflows or shrinks the lifetime
+					for i, a := range d.Args {
+						if _, isC := a.IntConst(); isC && d.Args[1-i].Mentions(func(s *Term) bool { return s.Op == "call" && strings.Contains(s.Name, "Lifespan") }) {
+							ok, w = false, p
+							why = fmt.Sprintf("%s (%s) stamps now + %s: a Duration-valued lifespan is scaled by a constant", e.Name, c.P.Pos(e.Instr.Pos()), clip(d.Pretty(), 80))
+						}
+					}
 				}
 			}
 		}
